@@ -167,6 +167,25 @@ def requests(case):
     return [req]
 
 
+class Timeout(Exception):
+    """a merge that did not return within the deadline: observed as (raise (crash Timeout))"""
+
+
+def with_deadline(fn, secs=20):
+    """run fn() under a wall-clock deadline (as harness/c14.py does for the parser)"""
+    import signal
+
+    def on_alarm(signum, frame):
+        raise Timeout()
+    old = signal.signal(signal.SIGALRM, on_alarm)
+    signal.setitimer(signal.ITIMER_REAL, secs)
+    try:
+        return fn()
+    finally:
+        signal.setitimer(signal.ITIMER_REAL, 0)
+        signal.signal(signal.SIGALRM, old)
+
+
 def observe(case):
     E = _ENV
     got = _CACHE.pop(case_key(case), None)
@@ -176,7 +195,7 @@ def observe(case):
         lhs, rhs, cfg = got
     try:
         m = E["Merger"](E["log"], lhs, cfg)
-        m.merge_with(rhs)
+        with_deadline(lambda: m.merge_with(rhs))
         return ["(ok %s)" % out_doc(m.data)]
     except Exception as e:  # noqa
         return [exc_line(e)]
